@@ -1,10 +1,207 @@
-"""Kani harness runner (complete loop-free proofs, bounded twins, counterexample search)."""
-TWINS = {}
+"""Kani harness runner.
+
+kani/harnesses.json:
+  { "<set>": { "crate": "<dir under kani/>",
+               "harnesses": [ { "name", "complete": bool, "bound": str, "tier": "quick"|"thorough",
+                                "props": [..], "timeout": sec,
+                                "replay": { "layout": [["t","bytes",6],["n","usize"]], "hex_from": "t[..n]" } } ] } }
+
+A *complete* harness (loop-free over the full domain of its inputs, or with unwinding assertions over
+a domain that bounds every loop) counts as a discharged obligation; a bounded harness never does.
+A failing harness is an obligation that passes on the unchanged tree and fails now => violation; its
+counterexample is extracted with --concrete-playback=print and replayed natively against the real
+source (cargo test in the same twin crate, which `include!`s / depends on /repo's files).
+"""
+import json
+import os
+import re
+import shutil
+import subprocess
+import time
+
+HERE = os.path.dirname(os.path.abspath(__file__))
+VERIF = os.path.dirname(HERE)
+REPO = os.environ.get('VERIF_REPO', '/repo')
+REG = json.load(open(os.path.join(VERIF, 'kani', 'harnesses.json')))
+BUILD = os.path.join(VERIF, 'build', 'kani')
+TARGET = os.path.join(VERIF, 'build', 'kani_target')
+
+
+def _prep(crate):
+    """fresh copy of the twin crate (and the shims) under build/ so that nothing is written to kani/"""
+    dst = os.path.join(BUILD, crate)
+    if os.path.exists(dst):
+        shutil.rmtree(dst)
+    os.makedirs(BUILD, exist_ok=True)
+    shutil.copytree(os.path.join(VERIF, 'kani', crate), dst)
+    sh = os.path.join(BUILD, 'shims')
+    if os.path.exists(sh):
+        shutil.rmtree(sh)
+    shutil.copytree(os.path.join(VERIF, 'kani', 'shims'), sh)
+    # path dependencies on /repo are written with the placeholder @REPO@
+    ct = os.path.join(dst, 'Cargo.toml')
+    s = open(ct).read().replace('@REPO@', REPO)
+    open(ct, 'w').write(s)
+    return dst
+
+
+def _env():
+    e = dict(os.environ)
+    e.update(CARGO_NET_OFFLINE='true', CARGO_TARGET_DIR=TARGET, VERIF_REPO=REPO)
+    return e
+
+
+def run_kani(crate_dir, harness, timeout, playback=False):
+    cmd = ['cargo', 'kani', '--harness', harness]
+    if playback:
+        cmd += ['-Z', 'concrete-playback', '--concrete-playback=print']
+    t0 = time.time()
+    try:
+        p = subprocess.run(cmd, cwd=crate_dir, env=_env(), stdout=subprocess.PIPE, stderr=subprocess.STDOUT,
+                           text=True, timeout=timeout)
+        out = p.stdout
+    except subprocess.TimeoutExpired as e:
+        return 'timeout', (e.stdout or '') if isinstance(e.stdout, str) else '', time.time() - t0, ' '.join(cmd)
+    dt = time.time() - t0
+    if 'VERIFICATION:- SUCCESSFUL' in out:
+        return 'ok', out, dt, ' '.join(cmd)
+    if 'VERIFICATION:- FAILED' in out:
+        return 'failed', out, dt, ' '.join(cmd)
+    return 'error', out, dt, ' '.join(cmd)
+
+
+def failed_checks(out):
+    res = []
+    for m in re.finditer(r'Failed Checks: (.*)\n\s*File: "([^"]*)", line (\d+)', out):
+        res.append('%s (%s:%s)' % (m.group(1), m.group(2), m.group(3)))
+    return res
+
+
+def playback_bytes(out):
+    """concrete values printed by --concrete-playback=print: a list of byte vectors, one per kani::any()"""
+    vecs = []
+    for m in re.finditer(r'vec!\[([0-9,\s]*)\]', out):
+        body = m.group(1).strip()
+        vecs.append([int(x) for x in body.split(',') if x.strip()] if body else [])
+    return vecs
+
+
+def replay_native(cex):
+    """re-execute a recorded counterexample against the real code: cargo test in the twin crate"""
+    d = _prep(cex['crate'])
+    env = _env()
+    env.update(cex.get('env', {}))
+    p = subprocess.run(['cargo', 'test', '--offline', cex.get('test', 'replay'), '--', '--nocapture'], cwd=d, env=env,
+                       stdout=subprocess.PIPE, stderr=subprocess.STDOUT, text=True, timeout=900)
+    failed = ('test result: FAILED' in p.stdout) or ('panicked' in p.stdout)
+    print(p.stdout[-3000:])
+    print('native replay: %s' % ('FAILS against /repo (violation reproduced)' if failed else 'passes'))
+    return 0 if failed else 1
+
+
+def _cex(setname, crate, h, crate_dir):
+    rp = h.get('replay')
+    if not rp:
+        return {'found': False, 'note': 'harness has no replay layout'}
+    st, out, dt, cmd = run_kani(crate_dir, h['name'], h.get('timeout', 900), playback=True)
+    vecs = playback_bytes(out)
+    if not vecs:
+        return {'found': False, 'note': 'kani printed no concrete values'}
+    vals = {}
+    k = 0
+    for name, kind, *rest in rp['layout']:
+        if kind == 'bytes':
+            n = rest[0]
+            b = []
+            # arrays come as one vector per element or one vector for the whole array
+            if k < len(vecs) and len(vecs[k]) == n:
+                b = vecs[k]
+                k += 1
+            else:
+                while len(b) < n and k < len(vecs):
+                    b += vecs[k]
+                    k += 1
+            vals[name] = b[:n]
+        else:
+            width = {'u8': 1, 'bool': 1, 'u16': 2, 'u32': 4, 'u64': 8, 'usize': 8}[kind]
+            v = vecs[k] if k < len(vecs) else [0] * width
+            k += 1
+            vals[name] = int.from_bytes(bytes(v[:width]), 'little')
+    env = {}
+    for var, expr in rp.get('env', {}).items():
+        # expr: "hex:t[..n]" | "int:n"
+        kind, e = expr.split(':', 1)
+        if kind == 'hex':
+            m = re.match(r'(\w+)\[\.\.(\w+)\]', e)
+            if m:
+                data = vals[m.group(1)][:vals[m.group(2)]]
+            else:
+                data = vals[e]
+            env[var] = bytes(data).hex()
+        else:
+            env[var] = str(vals[e])
+    cex = {'found': True, 'crate': crate, 'harness': h['name'], 'values': vals, 'env': env,
+           'test': rp.get('test', 'replay'), 'kani_cmd': cmd}
+    # confirm natively
+    d = _prep(crate)
+    e2 = _env()
+    e2.update(env)
+    p = subprocess.run(['cargo', 'test', '--offline', cex['test']], cwd=d, env=e2, stdout=subprocess.PIPE,
+                       stderr=subprocess.STDOUT, text=True, timeout=900)
+    cex['native_replay_fails'] = ('test result: FAILED' in p.stdout)
+    cex['native_output'] = p.stdout[-1500:]
+    if not cex['native_replay_fails']:
+        cex['found'] = False
+        cex['note'] = 'kani counterexample did not reproduce natively'
+    return cex
+
+
+def run_harness_set(spec, tier='quick', known=()):
+    setname = spec['set'] if isinstance(spec, dict) else spec
+    reg = REG[setname]
+    crate = reg['crate']
+    res = {'unit': 'kani/' + setname, 'status': 'ok', 'harnesses': [], 'failures': [],
+           'trusted': reg.get('trusted', []), 'cmd': ''}
+    d = _prep(crate)
+    for h in reg['harnesses']:
+        if tier == 'quick' and h.get('tier', 'thorough') != 'quick':
+            continue
+        st, out, dt, cmd = run_kani(d, h['name'], h.get('timeout', 900))
+        res['cmd'] = cmd
+        rec = {'name': '%s/%s' % (setname, h['name']), 'complete': bool(h.get('complete')),
+               'bound': h.get('bound'), 'ok': st == 'ok', 'time_s': round(dt, 1), 'status': st,
+               'props': h.get('props', [])}
+        res['harnesses'].append(rec)
+        if st == 'failed':
+            obl = 'kani/%s/%s' % (setname, h['name'])
+            if any(re.search(k, obl) for k in known):
+                cex = {'found': False, 'note': 'listed known finding: counterexample extraction skipped'}
+            else:
+                cex = _cex(setname, crate, h, d)
+            res['failures'].append({
+                'obligation': 'kani/%s/%s' % (setname, h['name']), 'function': h.get('function', h['name']),
+                'kind': 'kani-assertion', 'props': h.get('props', []),
+                'message': '; '.join(failed_checks(out)[:5]), 'rendered': '\n'.join(
+                    l for l in out.split('\n') if 'Failed Checks' in l or 'File:' in l or 'VERIFICATION' in l)[:3000],
+                'where': [], 'counterexample': cex})
+        elif st in ('timeout', 'error'):
+            res['status'] = 'undecided'
+            res['reason'] = 'kani %s on %s: %s' % (st, h['name'], out[-400:] if st == 'error' else '')
+    return res
 
 
 def counterexample_for(failure):
-    return {'found': False, 'note': 'no Kani twin registered for %s' % failure.get('function')}
-
-
-def run_harness_set(spec):
-    return {'status': 'ok', 'harnesses': [], 'failures': [], 'trusted': []}
+    """find a Kani twin registered for the function of a failed Verus obligation and search for a
+    concrete failing input within its bound"""
+    if failure.get('counterexample'):
+        return failure['counterexample']
+    fn = failure.get('function') or ''
+    for setname, reg in REG.items():
+        for h in reg['harnesses']:
+            if fn and fn in h.get('twin_of', []):
+                d = _prep(reg['crate'])
+                st, out, dt, cmd = run_kani(d, h['name'], h.get('timeout', 600))
+                if st == 'failed':
+                    return _cex(setname, reg['crate'], h, d)
+                return {'found': False, 'note': 'kani twin %s/%s: %s within bound (%s)' % (setname, h['name'], st, h.get('bound'))}
+    return {'found': False, 'note': 'no Kani twin registered for %s' % fn}
